@@ -10,9 +10,15 @@ def beat_str(k):
     return f"{k / 48:.3f}"
 
 
-def to_strings(case):
+def respell(v, i):
+    """The same decimal number in another spelling Decimal() accepts: exponent form, explicit plus sign."""
+    d = Decimal(v)
+    return [f"{d:E}", "+" + v, f"{d:e}", v][i % 4]
+
+
+def to_strings(case, spell=False):
     def ev(lst):
-        return ",\n".join(f"{beat_str(k)}={v}" for k, v in lst)
+        return ",\n".join(f"{beat_str(k)}={respell(v, i + k) if spell else v}" for i, (k, v) in enumerate(lst))
 
     return {
         "BPMS": ev(case["bpms"]),
@@ -23,9 +29,9 @@ def to_strings(case):
     }
 
 
-def to_text(case, extra="", style="ssc"):
+def to_text(case, extra="", style="ssc", spell=False):
     """style: 'ssc' | 'sm' (an SM simfile carrying the same keys) | 'sm-freezes' (its stops spelled #FREEZES)."""
-    s = to_strings(case)
+    s = to_strings(case, spell)
     s["V"] = "#VERSION:0.83;\n" if style == "ssc" else "#TITLE:t;\n"
     s["STOPKEY"] = "FREEZES" if style == "sm-freezes" else "STOPS"
     return ("%(V)s#OFFSET:%(OFFSET)s;\n#BPMS:%(BPMS)s;\n#%(STOPKEY)s:%(STOPS)s;\n#DELAYS:%(DELAYS)s;\n#WARPS:%(WARPS)s;\n" % s) + extra
@@ -46,10 +52,35 @@ def build_timing_data(case, style=None):
     from simfile.ssc import SSCSimfile
     from simfile.timing import TimingData
 
+    from ..core import digest64
+
     style = style or style_of(case)
-    text = to_text(case, style=style)
+    h = digest64(case) // 4
+    text = to_text(case, style=style, spell=h % 5 == 0)
     sf = SSCSimfile(string=text) if style == "ssc" else SMSimfile(string=text)
+    if style == "ssc" and h % 3 == 0:
+        # a chart is named as well, but its timing properties are absent or present-and-empty: the simfile's apply
+        from simfile.ssc import SSCChart
+
+        chart = SSCChart.blank()
+        if h % 2:
+            chart["STOPS"] = ""
+            chart["WARPS"] = ""
+        return TimingData(sf, chart)
     return TimingData(sf)
+
+
+def variant_of(case):
+    """Which reading variants build_timing_data applies to this case (for evidence)."""
+    from ..core import digest64
+
+    h = digest64(case) // 4
+    out = set()
+    if h % 5 == 0 and sum(len(case[k]) for k in ("bpms", "stops", "delays")) > 0:
+        out.add("values_in_exponent_or_plus_sign_spelling")
+    if style_of(case) == "ssc" and h % 3 == 0 and h % 2:
+        out.add("chart_with_empty_timing_properties_named")
+    return out
 
 
 def build_engine(case, style=None):
@@ -165,6 +196,11 @@ def random_case(rng, max_events=40, span_beats=400):
             if later and rng.random() < 0.5:
                 l = max(1, rng.choice(later) - k + rng.choice([0, 0, -1, 1, step]))
             c["warps"][k] = l
+    if rng.random() < 0.06:
+        # many separate warp segments (17-40), beyond anything a small-table fast path would handle linearly
+        start = span + 96
+        for i in range(rng.randint(17, 40)):
+            c["warps"][start + i * 96 + rng.choice([0, 0, 1, 12])] = rng.choice([12, 24, 48, 1])
     # events of different kinds on ADJACENT ticks (k and k+-1): neither the same beat nor a comfortable gap
     for _ in range(rng.choice([0, 0, 1, 2, 3])):
         have = [k for key in ("bpms", "stops", "delays", "warps") for k in c[key]]
@@ -275,6 +311,8 @@ def event_features(case):
                 f.add("touching_warps")
     if len(raw) >= 3 and len(tl.U) < len(raw) - 1:
         f.add("three_warps_one_union")
+    if len(tl.U) > 16:
+        f.add("more_than_16_separate_warp_segments")
     for (a, b) in tl.U:
         if a == 0:
             f.add("warp_at_beat_0")
